@@ -53,34 +53,24 @@ structure PacketOut (E : Type) where
   actions : List E
   data : Bytes
 
+/-- the fixed part is `struct ofp_packet_out` of the standard; everything after it (actions, then data) is the tail -/
+def packetOutL : Layout := ⟨Spec.OF10.ofp_packet_out_fixed, .rest "actions+data"⟩
+
 def encPacketOut (C : Codec E) (p : PacketOut E) : Option Bytes :=
   match encList (C.enc "actions") p.actions with
   | none => none
   | some acts =>
-    let tot := 16 + acts.length + p.data.length
-    if p.version < 256 ∧ p.header_type < 256 ∧ tot < 65536 ∧ p.xid < 2 ^ 32 ∧ p.buffer_id < 2 ^ 32 ∧ p.in_port < 65536
-    then some (beEnc 1 p.version ++ beEnc 1 p.header_type ++ beEnc 2 tot ++ beEnc 4 p.xid ++ beEnc 4 p.buffer_id ++
-               beEnc 2 p.in_port ++ beEnc 2 acts.length ++ acts ++ p.data)
-    else none
+    encode C packetOutL
+      ⟨[.num p.version, .num p.header_type, .num p.xid, .num p.buffer_id, .num p.in_port, .num acts.length],
+       .rest (acts ++ p.data)⟩
 
 def decPacketOut (C : Codec E) (bs : Bytes) : Option (PacketOut E × Bytes) :=
-  if bs.length < 16 then none else
-  let version := beDec (bs.take 1)
-  let header_type := beDec ((bs.drop 1).take 1)
-  let tot := beDec ((bs.drop 2).take 2)
-  let xid := beDec ((bs.drop 4).take 4)
-  let buffer_id := beDec ((bs.drop 8).take 4)
-  let in_port := beDec ((bs.drop 12).take 2)
-  let alen := beDec ((bs.drop 14).take 2)
-  let r := bs.drop 16
-  if r.length < alen then none else
-  match decList (C.dec "actions") alen (r.take alen) with
-  | none => none
-  | some acts =>
-    if tot < 16 + alen then some (⟨version, header_type, xid, buffer_id, in_port, acts, []⟩, r.drop alen) else
-    let dlen := tot - 16 - alen
-    let r' := r.drop alen
-    if r'.length < dlen then none else
-    some (⟨version, header_type, xid, buffer_id, in_port, acts, r'.take dlen⟩, r'.drop dlen)
+  match decode C packetOutL none bs with
+  | some (⟨[.num version, .num header_type, .num xid, .num buffer_id, .num in_port, .num alen], .rest r⟩, tl) =>
+    if r.length < alen then none else
+    match decList (C.dec "actions") alen (r.take alen) with
+    | none => none
+    | some acts => some (⟨version, header_type, xid, buffer_id, in_port, acts, r.drop alen⟩, tl)
+  | _ => none
 
 end Pox.CodecOF
